@@ -284,6 +284,9 @@ def cubic_spline(
             + inputs_c * shifted_inputs
             + inputs_d
         )
+        # Like the linear and quadratic splines, never leave the unit interval by a rounding
+        # error (an output of 1 + 1 ulp is rejected by whatever bounded transform comes next).
+        outputs = torch.clamp(outputs, 0, 1)
 
         logabsdet = torch.log(
             (
